@@ -5,6 +5,7 @@ CONSTANTS
   MaxUrl = 3
   ReuseOnLookup = FALSE
   FabricatedNorm = FALSE
+  EmptyParam = TRUE
   WildHostCheck = TRUE
   KF_Shadow = TRUE
   Source = "all"
